@@ -44,7 +44,9 @@ Record fdef := mkF { f_name: string; f_alias: option string; f_ty: ty }.
    c_parent: the dataclass base (single inheritance) - only used for the MRO walk;
    c_by_alias: Config.serialize_by_alias (None = not set);
    c_has_method: the class's own __dict__ holds __mashumaro_to_dict__ (mixin classes always;
-   plain dataclasses once some nailed builder compiled them as a field type). *)
+   plain dataclasses once some nailed builder compiled them as a field type).  When calls carry
+   `dialect=` the flag is also set for subclasses of such classes: the inherited dialect-aware
+   method compiles/looks up the packer of self.__class__, i.e. of the runtime class. *)
 Record cdef := mkC { c_name: cname; c_parent: option cname; c_fields: list fdef;
                      c_by_alias: option bool; c_has_method: bool }.
 Definition env := list cdef.
@@ -544,13 +546,10 @@ Section Unpack.
           match find_cls E c with
           | None => Err XRaw
           | Some d =>
-              match c_fields d with
-              | [] => Ok (VObj c [])                   (* no d.get is ever executed *)
-              | _ =>
-                  match v with
-                  | VDict kvs => unpack_fields_cl c d (map (fun kv => match kv with (k, x) => (k, unpack x) end) kvs)
-                  | _ => Err XRaw                      (* "should be a dict instance" ValueError *)
-                  end
+              (* also for a class without fields (since fix abe4c99 the try/`d.keys` frame is always emitted) *)
+              match v with
+              | VDict kvs => unpack_fields_cl c d (map (fun kv => match kv with (k, x) => (k, unpack x) end) kvs)
+              | _ => Err XRaw                      (* "should be a dict instance" ValueError *)
               end
           end
       end.
